@@ -85,6 +85,7 @@ T_CallEnd ==
          [] c.call = "close" ->
               /\ E.outcome \in {"ok", "err", "closed"}
               /\ (E.outcome = "closed" => c.afterClose \/ closeStarted)
+              /\ (c.afterClose => E.outcome = "closed")              \* a Close on a closed channel says so, like every other call
               /\ closeDone' = TRUE /\ UNCHANGED <<connClosed, got, stolen>>
          [] c.call = "connclose" ->
               /\ E.outcome \in {"ok", "err"}
